@@ -55,7 +55,11 @@
    * The task may enter `drain_queue` in any state of the queue (the code: only when the queue is Idle, Pending or
      WaitingForPoll(own id)); it then continues whatever operation is in progress.  This only adds behaviours.
    * `drop(scheduler_future)` has no step (its Drop is empty).
-   * Other operations take two steps (start, finish) and never suspend by themselves.
+   * Other operations take two steps (start, finish); between them they may suspend ([AOSusp]: the operation is a future that
+     returns Pending and keeps the waker of its runner's context - the queue waker, or both wakers of drain_queue's
+     DoubleWaker when the runner is the draining task, which then leaves drain_queue exactly as for a pending slot job)
+     and are resumed by [AOWake].  [AWakeQ]: a pool thread takes the parked queue from a stale schedule entry (state
+     WaitingForPoll is taken like Pending) and polls the suspended job again without any wake-up.
    * UFinish stands for "the user future returned Ready and everything it owned is destroyed".  This is what
      `Desync::future_sync` provides (its future is `async { job.await }`, which drops `job` when it completes); the
      boxed, completed future object itself is dropped by `SyncFuture::poll` only at the end of the match arm, i.e. AFTER
@@ -132,7 +136,7 @@ Inductive ev :=
 | UStart | UPoll | UStep | UFinish (v : nat) | UCancel
 | Ret (v : nat) | RetErr | Dropped.
 
-Inductive actor := AQueue | ATask | ADrain | AEvent (e : nat) | ADrop | AWake.
+Inductive actor := AQueue | ATask | ADrain | AEvent (e : nat) | ADrop | AWake | AOSusp | AOWake | AWakeQ.
 
 Inductive label := LReadySend | LReadyPoll | LFinSend | LFinPoll | LSfPoll | LSfSignal | LEvent | LDrop | LQueue.
 
@@ -152,7 +156,8 @@ Record state := {
   (* the object's queue *)
   opq : list qop;            (* pending operations, FIFO *)
   cur : qcur;                (* operation in progress *)
-  parked : bool;             (* the slot job is suspended in S2 and has not been woken *)
+  parked : bool;             (* the operation in progress (the slot job in S2, or another operation) is suspended and has not been woken *)
+  owk : option waker;        (* the waker held by whatever a suspended other operation waits for *)
   pool : bool;               (* there is a background runner (pool size >= 1) *)
   (* shared cells *)
   ready : oneshot;           (* queue_ready *)
@@ -170,7 +175,7 @@ Record state := {
   log : list ev;
 }.
 #[export] Instance eta_state : Settable _ :=
-  settable! Build_state <opq; cur; parked; pool; ready; fin; sf; evs; sst; txheld; uscr; uval; pc; pollable; log>.
+  settable! Build_state <opq; cur; parked; owk; pool; ready; fin; sf; evs; sst; txheld; uscr; uval; pc; pollable; log>.
 
 Definition emit (e : ev) (s : state) : state := s <| log := s.(log) ++ [e] |>.
 
@@ -194,7 +199,7 @@ Definition queue_step (r : runner) (s : state) : option state :=
       | Slot :: q => Some (emit SlotStart (s <| opq := q |> <| cur := CSlot QS1 |>))
       | Other k :: q => Some (emit (OStart k) (s <| opq := q |> <| cur := COther k |>))
       end
-  | COther k => Some (emit (OFinish k) (s <| cur := CNone |>))
+  | COther k => Some (emit (OFinish k) (s <| cur := CNone |> <| parked := false |> <| owk := None |>))
   | CSlot QS1 =>
       let '(c, w) := os_send s.(ready) in
       Some (wake_opt w (s <| ready := c |> <| cur := CSlot QS2 |>))
@@ -219,6 +224,7 @@ Definition queue_label (s : state) : option label :=
   end.
 
 (* ---------- the owner task ---------- *)
+Definition is_other (c : qcur) : bool := match c with COther _ => true | _ => false end.
 Definition in_drain (p : tpc) : bool :=
   match p with PDrainLoop | PDrainJob | PDrainPend | PDrainWaker => true | _ => false end.
 Definition in_poll (p : tpc) : bool :=
@@ -341,6 +347,22 @@ Definition step (F : sfacts) (s : state) (a : actor) : option state :=
              | _ => None
              end
   | AWake => Some (s <| pollable := true |>)
+  | AOSusp =>
+      (* the other operation in progress is a future and returns Pending: it keeps the waker of its runner's context *)
+      if is_other s.(cur) then
+        match s.(pc) with
+        | PDrainJob => Some (s <| parked := true |> <| owk := Some WBoth |> <| pc := PDrainPend |>)
+        | _ => if s.(pool) && negb (in_drain s.(pc)) && negb s.(parked) then Some (s <| parked := true |> <| owk := Some WQueue |>) else None
+        end
+      else None
+  | AOWake =>
+      (* what the suspended other operation waits for happens *)
+      if is_other s.(cur) && s.(parked) then
+        match s.(owk) with Some w => Some (wake w (s <| owk := None |>)) | None => None end
+      else None
+  | AWakeQ =>
+      (* a background runner picks the parked queue up without a wake-up (a stale entry of the schedule) and polls again *)
+      if s.(pool) && negb (in_drain s.(pc)) && s.(parked) then Some (s <| parked := false |>) else None
   end.
 
 Definition run (F : sfacts) (s : state) (tr : list actor) : option state :=
@@ -365,14 +387,14 @@ Definition step_label (s : state) (a : actor) : option label :=
   | ATask | ADrain => task_label s
   | AEvent _ => Some LEvent
   | ADrop => Some LDrop
-  | AWake => None
+  | AWake | AOSusp | AOWake | AWakeQ => None
   end.
 
 (* ---------- initial states ---------- *)
 Definition full_queue (nb na : nat) : list qop := (Other <$> seq 0 nb) ++ Slot :: (Other <$> seq nb na).
 
 Definition init (pl : bool) (nb na : nat) (scr : list uprim) (v : nat) (nev : nat) : state :=
-  {| opq := full_queue nb na; cur := CNone; parked := false; pool := pl;
+  {| opq := full_queue nb na; cur := CNone; parked := false; owk := None; pool := pl;
      ready := os_new; fin := os_new; sf := {| sf_res := SfNone; sf_waker := None |};
      evs := replicate nev {| fired := false; regs := [] |};
      sst := SWaitQueue; txheld := true; uscr := scr; uval := v; pc := PIdle; pollable := true;
@@ -381,14 +403,15 @@ Definition init (pl : bool) (nb na : nat) (scr : list uprim) (v : nat) (nev : na
 (* every event the script awaits exists *)
 Definition script_ok (nev : nat) (scr : list uprim) : Prop := forall e, UAwait e ∈ scr -> e < nev.
 
-(* no actor of the system proper can move (the environment's free choices ADrop and AWake are not counted) *)
+(* no actor of the system proper can move (the environment's free choices ADrop, AWake, AOSusp, AWakeQ are not counted;
+   AOWake is: whatever a suspended other operation waits for eventually happens) *)
 Definition terminal (F : sfacts) (s : state) : Prop :=
-  step F s AQueue = None /\ step F s ATask = None /\ step F s ADrain = None /\ forall e, step F s (AEvent e) = None.
+  step F s AQueue = None /\ step F s ATask = None /\ step F s ADrain = None /\ step F s AOWake = None /\ forall e, step F s (AEvent e) = None.
 
 (* a computable sufficient check, for the examples *)
 Definition is_none {A} (o : option A) : bool := match o with None => true | Some _ => false end.
 Definition terminalb (F : sfacts) (s : state) : bool :=
-  is_none (step F s AQueue) && is_none (step F s ATask) && is_none (step F s ADrain) && forallb fired s.(evs).
+  is_none (step F s AQueue) && is_none (step F s ATask) && is_none (step F s ADrain) && is_none (step F s AOWake) && forallb fired s.(evs).
 
 (* log vocabulary used by the statements *)
 Definition in_slot (l : list ev) : Prop := SlotStart ∈ l /\ SlotEnd ∉ l.
